@@ -116,7 +116,7 @@ def dfs(scenario, bound, cap):
     n = 0
     problems = {}
     traces = set()
-    nontrivial = 0
+    nontrivial = set()
     complete = True
     while stack:
         if n >= cap:
@@ -125,11 +125,11 @@ def dfs(scenario, bound, cap):
         pre = stack.pop()
         s, prob = run_schedule(pre, scenario)
         n += 1
-        tr = core.digest(s.trace)
+        tr = core.digest([scenario, s.trace])
         if tr not in traces:
             traces.add(tr)
             if s.preempt_lines:
-                nontrivial += 1
+                nontrivial.add(tr)
         if prob and prob[0] not in problems:
             problems[prob[0]] = (prob[1], [c[1] for c in s.choices], s.trace[-12:])
         for i in range(len(pre), len(s.choices)):
@@ -141,7 +141,7 @@ def dfs(scenario, bound, cap):
                     if npre <= bound and tuple(new) not in seen:
                         seen.add(tuple(new))
                         stack.append(new)
-    return n, len(traces), nontrivial, problems, complete
+    return n, traces, nontrivial, problems, complete
 
 
 def scenarios():
@@ -171,13 +171,13 @@ def scenarios():
 def w_dfs(job):
     scenario, bound, cap = job
     sh = Shard()
-    n, ntraces, nontrivial, problems, complete = dfs(scenario, bound, cap)
+    n, traces, nontrivial, problems, complete = dfs(scenario, bound, cap)
     sh.evaluations += n
-    # distinct traces counted by the DFS itself
-    for i in range(ntraces):
-        sh.nontrivial.add(core.digest((scenario, 'trace', i))) if i < nontrivial else sh.trivial_distinct.add(core.digest((scenario, 'trace', i)))
+    # distinct = distinct (thread, line) traces; non-trivial = traces with at least one preemption
+    sh.nontrivial.update(nontrivial)
+    sh.trivial_distinct.update(traces - nontrivial)
     if len(sh.samples) < 2:
-        sh.samples.append({'scenario': scenario, 'schedules': n, 'distinct_traces': ntraces, 'with_preemption': nontrivial, 'bound': bound, 'complete': complete})
+        sh.samples.append({'scenario': scenario, 'schedules': n, 'distinct_traces': len(traces), 'with_preemption': len(nontrivial), 'bound': bound, 'complete': complete})
     sh.count('schedules', n)
     sh.count('scenarios')
     if not complete:
